@@ -85,32 +85,47 @@ def typestate(rep, prog):
             rep.ob('R06.typestate', 'open_circuit_impedance', None, f'inverted matrix comes from {fn}(...), which the rule does not know', f.site)
 
 
+def _find(k, pred, out=None):
+    out = [] if out is None else out
+    if isinstance(k, tuple):
+        if pred(k): out.append(k)
+        for x in k: _find(x, pred, out)
+    return out
+
+
 def shape(rep, prog):
     f = prog.func(NA, 'open_circuit_impedance')
-    ps = [a.arg for a in f.node.args.args]
-    n1, n2 = ps[1], ps[2]
-    early = []
-    first_matrix_line = min([n.lineno for n in ast.walk(f.node) if isinstance(n, ast.Call) and ast.unparse(n.func).split('.')[-1] in ('node_admittance_matrix', 'nodal_analysis_coefficient_matrix', 'inv')] or [10 ** 6])
-    for st in f.node.body:
-        if isinstance(st, ast.If) and st.lineno < first_matrix_line and st.body and isinstance(st.body[0], ast.Return):
-            early.append((ast.unparse(st.test), ast.unparse(st.body[0].value) if st.body[0].value is not None else None))
-    same_nodes = any(t.replace(' ', '') in (f'{n1}=={n2}', f'{n2}=={n1}') and v == '0' for t, v in early)
-    across_vs = any('is_ideal_voltage_source' in t and 'branches_between' in t and v == '0' for t, v in early)
-    rep.ob('R06.shape', 'identical-nodes', same_nodes, f'early returns: {early}', f.site)
-    rep.ob('R06.shape', 'across-ideal-voltage-source', across_vs, f'early returns: {early}', f.site)
-    swap = [st for st in f.node.body if isinstance(st, ast.If) and 'is_zero_node' in ast.unparse(st.test) and n1 in ast.unparse(st.test)]
-    oks = False
-    if swap and swap[0].body and isinstance(swap[0].body[0], ast.Assign):
-        a = swap[0].body[0]
-        oks = ast.unparse(a.targets[0]).replace(' ', '') in (f'{n1},{n2}', f'({n1},{n2})') and ast.unparse(a.value).replace(' ', '') in (f'{n2},{n1}', f'({n2},{n1})')
-    rep.ob('R06.shape', 'swap-if-reference', oks, 'node pair swapped when the first node is the reference', f.site)
-    reref = [n for n in ast.walk(f.node) if isinstance(n, ast.Call) and ast.unparse(n.func).split('.')[-1] == 'switch_ground_node']
-    okr = False
-    if reref:
-        kw = {k.arg: ast.unparse(k.value) for k in reref[0].keywords}
-        ng = kw.get('new_ground', ast.unparse(reref[0].args[1]) if len(reref[0].args) > 1 else None)
-        okr = ng == n2
-    rep.ob('R06.shape', 're-reference-to-second-node', okr, 'network re-referenced to the second node of the pair', f.site)
+    ev = new_ev(prog)
+    ev.opaque_fns |= {(NA, 'nodal_analysis_coefficient_matrix'), (NA, 'node_admittance_matrix'), ('Network.transformers', 'switch_ground_node'),
+                      ('Network.elements', 'is_ideal_voltage_source'), ('Network.NodalAnalysis.label_mapping', 'alphabetic_node_mapper')}
+    for nm in ('remove_ideal_voltage_sources', 'passive_network', 'short_circuitify_voltage_sources'): ev.opaque_fns.add(('Network.transformers', nm))
+    t = call(ev, f, [A('network'), A('n1'), A('n2')])
+    paths = paths_of(t)
+    env = {'network': A('network'), 'n1': A('n1'), 'n2': A('n2'), 'is_ideal_voltage_source': ev.ref_of(prog.resolve(prog.mod('Network.elements'), 'is_ideal_voltage_source'))}
+    g_same = repr(tkey(ev.fresh().truth(spec(ev, "n1 == n2", env, f.mod))))
+    g_vs = repr(tkey(ev.fresh().truth(spec(ev, "any([is_ideal_voltage_source(b.element) for b in network.branches_between(n1, n2)])", env, f.mod))))
+    def zero(l): return isinstance(l, (int, Poly)) and not isinstance(l, bool) and as_poly(l).is_zero()
+    same_nodes = any(set(pc) == {(g_same, True)} and zero(l) for pc, l in paths)
+    across_vs = any(set(pc) == {(g_same, False), (g_vs, True)} and zero(l) for pc, l in paths) or any(set(pc) == {(g_vs, True)} and zero(l) for pc, l in paths)
+    rep.ob('R06.shape', 'identical-nodes', same_nodes, 'n1 == n2 returns 0 before any matrix work' if same_nodes else f'no path {{n1 == n2}} -> 0 found among {len(paths)} paths', f.site)
+    rep.ob('R06.shape', 'across-ideal-voltage-source', across_vs, 'an ideal voltage source between the nodes returns 0 before any matrix work' if across_vs else 'no such early return', f.site)
+    # re-referencing and the node that is looked up: evaluate once under each answer of `network.is_zero_node(n1)`
+    zn = ev.fresh().call_method(A('network'), 'is_zero_node', [A('n1')], {}, f.mod, 0)
+    is_lookup = lambda x: len(x) == 3 and x[0] == '[]' and isinstance(x[1], tuple) and len(x[1]) >= 3 and x[1][0] == 'call' and x[1][1] == ('fn', 'alphabetic_node_mapper')
+    is_sg = lambda x: len(x) >= 4 and x[0] == 'call' and x[1] == ('fn', 'switch_ground_node')
+    okr = okl = True; n_sg = n_look = 0
+    for first_is_reference, rel, ground, node in ((False, '==0', 'n2', 'n1'), (True, '!=0', 'n1', 'n2')):
+        e2 = new_ev(prog, facts=[(zn, rel)]); e2.opaque_fns = set(ev.opaque_fns)
+        t2 = call(e2, f, [A('network'), A('n1'), A('n2')])
+        k2 = tkey(t2)
+        for c_ in _find(k2, is_sg):
+            n_sg += 1
+            if dict(c_[3]).get('new_ground', c_[2][1] if len(c_[2]) > 1 else None) != tkey(A(ground)): okr = False
+        for x in _find(k2, is_lookup):
+            n_look += 1
+            if x[2] != tkey(A(node)): okl = False
+    rep.ob('R06.shape', 're-reference-to-second-node', okr if n_sg else None, 'network re-referenced to the second node (kept when the first node is the reference)', f.site)
+    rep.ob('R06.shape', 'swap-if-reference', okl if n_look else None, 'the node whose row is read is the one that is not the reference of the re-referenced network', f.site)
     # element_impedance
     g = prog.func(NA, 'element_impedance')
     ev = new_ev(prog); ev.opaque_fns |= {(NA, 'open_circuit_impedance'), ('Network.transformers', 'remove_element')}
